@@ -558,11 +558,14 @@ Module Toy.
     | [] => RDone last
     | a :: t =>
         let k := fun v : outcome value => match v with Raise e => RDone (Raise e) | Return _ => prog_from v t end in
+        (* get_tracefield_1d goes on when the field is not among the loaded arrays (a constant field: KeyError here) *)
+        let k1 := fun v : outcome value => match v with Raise OtherErr => prog_from v t | Raise e => RDone (Raise e)
+                                                      | Return _ => prog_from v t end in
         match a with
         | ALoad m args => RLoader m args k
         | AChunk key => RChunk key k
         | AMask => RMask k
-        | AHdrOne p fld => RHeaderOne p fld k
+        | AHdrOne p fld => RHeaderOne p fld k1
         | AHdrAll p fld => RHeaderAll p fld k
         | ARaw o l => RRaw o l k
         end
